@@ -90,6 +90,9 @@ enum RData {
     Cname(usize),
     Ns(usize),
     Soa(usize, usize, u32),
+    /// Entry k of `zone_rdata()`: record data of some other type, scanned
+    /// from its presentation format.
+    Zone(usize),
 }
 
 #[derive(Clone, Debug, PartialEq)]
@@ -166,7 +169,85 @@ fn rdata_text(pool: &[String], rd: &RData) -> (Rtype, String) {
         RData::Cname(i) => (Rtype::CNAME, n(i)),
         RData::Ns(i) => (Rtype::NS, n(i)),
         RData::Soa(a, b, s) => (Rtype::SOA, format!("{} {} {}", n(a), n(b), s)),
+        RData::Zone(k) => {
+            let t = zone_rdata();
+            (t[*k].0, t[*k].2.clone())
+        }
     }
+}
+
+/// Record data of the types the hand-written cases do not cover, as the
+/// zone-file scanner produces it: names inside that are compressed (PTR, MB,
+/// MINFO), names that never are (SRV, DNAME, RRSIG, NSEC, RP, SVCB, NAPTR),
+/// data whose length is known in advance and data whose RDLENGTH is patched
+/// in afterwards, an unknown type. With each entry the text a reader gets
+/// back when the record went through a plain message without compressor.
+type ZoneData = domain::rdata::ZoneRecordData<bytes::Bytes, Name<bytes::Bytes>>;
+
+const ZONE_RDATA: &[&str] = &[
+    "AAAA 2001:db8::1",
+    "PTR www.example.com.",
+    "MB mail.example.com.",
+    "MINFO mail.example.com. a.b.c.example.com.",
+    "SRV 10 20 443 www.example.com.",
+    "DNAME example.org.",
+    "HINFO \"cpu-x\" \"os y\"",
+    "DNSKEY 257 3 13 mdsswUyr3DPW132mOi8V9xESWE8jTo0dxCjjnopKl+GqJxpVXckHAeF+KkxLbxILfDLUT0rAK9iUzy1L53eKGQ==",
+    "DS 12345 13 2 0123456789abcdef0123456789abcdef0123456789abcdef0123456789abcdef",
+    "RRSIG A 13 3 3600 20260101000000 20250101000000 12345 example.com. mdsswUyr3DPW132mOi8V9xESWE8jTo0dxCjjnopKl+GqJxpVXckHAeF+KkxLbxILfDLUT0rAK9iUzy1L53eKGQ==",
+    "NSEC ftp.example.org. A MX RRSIG NSEC TYPE1234",
+    "NSEC3 1 1 5 abcd 0123456789abcdefghijklmnopqrstuv A RRSIG",
+    "NSEC3PARAM 1 0 5 abcd",
+    "TYPE999 \\# 4 01020304",
+    "TYPE65280 \\# 0",
+    "CAA 0 issue \"ca.example\"",
+    "TLSA 3 1 1 0123456789abcdef0123456789abcdef0123456789abcdef0123456789abcdef",
+    "SSHFP 1 1 0123456789abcdef0123456789abcdef01234567",
+    "RP mail.example.com. example.org.",
+    "NAPTR 100 10 \"u\" \"sip+E2U\" \"!^.*$!sip:info@example.com!\" .",
+    "SVCB 1 www.example.com. alpn=h2 port=443",
+    "HTTPS 0 example.org.",
+    "CDS 12345 13 2 0123456789abcdef0123456789abcdef0123456789abcdef0123456789abcdef",
+    "CDNSKEY 257 3 13 mdsswUyr3DPW132mOi8V9xESWE8jTo0dxCjjnopKl+GqJxpVXckHAeF+KkxLbxILfDLUT0rAK9iUzy1L53eKGQ==",
+    "ZONEMD 2018031900 1 1 0123456789abcdef0123456789abcdef0123456789abcdef0123456789abcdef0123456789abcdef0123456789abcdef",
+    "OPENPGPKEY mdsswUyr3DPW132mOi8V9xESWE8jTo0dxCjjnopKl+GqJxpVXckHAeF+KkxLbxILfDLUT0rAK9iUzy1L53eKGQ==",
+];
+
+fn zone_rdata() -> Rc<Vec<(Rtype, ZoneData, String)>> {
+    thread_local! {
+        static TABLE: Rc<Vec<(Rtype, ZoneData, String)>> = Rc::new(build_zone_rdata());
+    }
+    TABLE.with(|t| t.clone())
+}
+
+fn build_zone_rdata() -> Vec<(Rtype, ZoneData, String)> {
+    use domain::zonefile::inplace::{Entry, Zonefile};
+    let mut out = Vec::new();
+    for text in ZONE_RDATA {
+        let mut zf = Zonefile::new();
+        zf.extend_from_slice(format!("x.example.com. 60 IN {}\n", text).as_bytes());
+        let data = match zf.next_entry() {
+            Ok(Some(Entry::Record(rec))) => {
+                use domain::base::name::FlattenInto;
+                let rec: domain::base::Record<Name<bytes::Bytes>, ZoneData> = rec.flatten_into();
+                rec.into_data()
+            }
+            // (A type this version of the scanner does not know: left out.)
+            other => {
+                if std::env::var_os("DSIM_TRACE").is_some() {
+                    eprintln!("zone rdata table: {:?} left out ({:?})", text, other.map(|_| ()));
+                }
+                continue;
+            }
+        };
+        let mut ab = MessageBuilder::new_vec().answer();
+        ab.push((Name::<Vec<u8>>::root(), Class::IN, Ttl::from_secs(1), data.clone())).expect("plain message");
+        let bytes = ab.finish();
+        let v = dns::view(&bytes).expect("plain message parses");
+        out.push((v.recs[0].rtype, data, v.recs[0].rdata.to_ascii_lowercase()));
+    }
+    assert!(out.len() >= 12, "zone rdata table: only {} of {} entries scanned", out.len(), ZONE_RDATA.len());
+    out
 }
 
 fn txt_of(len: usize, c: u8) -> Txt<Vec<u8>> {
@@ -277,6 +358,7 @@ impl<T: Composer> Stage<T> {
                         Ttl::from_secs(3),
                         Ttl::from_secs(4)
                     )),
+                    RData::Zone(k) => push_rec!(zone_rdata()[*k].1.clone()),
                 }
             }
             _ => unreachable!(),
@@ -394,7 +476,7 @@ fn actual_view(bytes: &[u8]) -> Result<(Vec<(String, Rtype, u16)>, Vec<(u8, Stri
                 let p: Vec<&str> = r.rdata.split_whitespace().collect();
                 format!("{} {} {}", dot(p.first().unwrap_or(&"")), dot(p.get(1).unwrap_or(&"")), p.get(2).unwrap_or(&""))
             }
-            _ => r.rdata.clone(),
+            _ => r.rdata.to_ascii_lowercase(),
         };
         rs.push((r.section, dot(&r.owner), r.rtype, r.ttl, text));
     }
@@ -749,7 +831,11 @@ fn gen_ops(pool: &[String], size_class: u64) -> Vec<Op> {
                     6 => 0xffff_ffff,
                     _ => sim::draw("ops.ttl_any", 1 << 32) as u32,
                 };
-                let rd = match sim::draw("ops.rtype", 7) {
+                let rd = match sim::draw("ops.rtype", 9) {
+                    7 | 8 => {
+                        sim::stat("probe.record_of_a_further_type");
+                        RData::Zone(sim::draw("ops.zone_rdata", zone_rdata().len() as u64) as usize)
+                    }
                     0 | 1 => RData::A(sim::draw("ops.a", 1 << 16) as u32),
                     2 => {
                         let len = match size_class {
@@ -849,12 +935,12 @@ impl Scenario for BuilderScn {
     }
     fn components(&self) -> (Vec<&'static str>, Vec<&'static str>) {
         (
-            vec!["base::message_builder::{MessageBuilder, Question/Answer/Authority/AdditionalBuilder, OptBuilder}", "StaticCompressor, TreeCompressor, HashCompressor", "StreamTarget", "base::Message (read back), rdata A/TXT/MX/CNAME/NS/SOA compose"],
+            vec!["base::message_builder::{MessageBuilder, Question/Answer/Authority/AdditionalBuilder, OptBuilder}", "StaticCompressor, TreeCompressor, HashCompressor", "StreamTarget", "base::Message (read back), rdata compose of A/TXT/MX/CNAME/NS/SOA and 26 further types scanned from presentation format (AAAA PTR MB MINFO SRV DNAME HINFO DNSKEY DS RRSIG NSEC NSEC3 NSEC3PARAM CAA TLSA SSHFP RP NAPTR SVCB HTTPS CDS CDNSKEY ZONEMD OPENPGPKEY and two unknown types)"],
             vec!["FaultySink: the caller-supplied target buffer, failing with ShortBuf at a chosen size and 'healing' on request", "operation sequence generator", "list model of accepted items"],
         )
     }
     fn rule(&self) -> &'static str {
-        "one evaluation = one seeded operation sequence (3-24 ops: push question/record with names from a pool with shared suffixes, case variants, the root and 255-octet names and rdata A/TXT/MX/CNAME/NS/SOA and TTLs over the whole 32-bit range; next section; direct conversion to any other section builder or back to the message builder; rewind; set/clear push limit; opt; heal) executed fault-free and then re-executed once per fault point: sink capacity at EVERY octet offset up to the fault-free length (first 1500 offsets, then every 37th) and a push limit at every 3rd such position, for one compressor kind (none/static/tree/hash) x plain/stream target; after every op the octets and counts must be unchanged if the op failed, the stream prefix must equal the length, and the message must parse back to exactly the accepted items with the pushed names. counter.builder_executions = number of builder runs."
+        "one evaluation = one seeded operation sequence (3-24 ops: push question/record with names from a pool with shared suffixes, case variants, the root and 255-octet names and rdata A/TXT/MX/CNAME/NS/SOA plus 26 further types scanned from presentation format, and TTLs over the whole 32-bit range; next section; direct conversion to any other section builder or back to the message builder; rewind; set/clear push limit; opt; heal) executed fault-free and then re-executed once per fault point: sink capacity at EVERY octet offset up to the fault-free length (first 1500 offsets, then every 37th) and a push limit at every 3rd such position, for one compressor kind (none/static/tree/hash) x plain/stream target; after every op the octets and counts must be unchanged if the op failed, the stream prefix must equal the length, and the message must parse back to exactly the accepted items with the pushed names. counter.builder_executions = number of builder runs."
     }
     fn assumptions(&self) -> Vec<&'static str> {
         vec![
